@@ -8,8 +8,11 @@ CONSTANTS
   ConsSet <- BoolSet
   MaxSteps = 2
   Emit = TRUE
+  Refusals <- NoRefusals
   MatChange = TRUE
   Mutant = "none"
+INVARIANT LatticeAdmissible
+INVARIANT RefusedKeeps
 INVARIANT Motion
 INVARIANT Prescribed
 INVARIANT UpdateRel
